@@ -217,6 +217,8 @@ def correspond(ctx, proof_ok=True):
             continue
         c, r = calls[i], results[i]
         if v == 2:
+            if 'C10:iterfit:procedure:maxiter%s0' % ('=' if c['maxiter'] == 0 else '>') in seen:
+                continue
             diag = cc.show('diagnose %s' % t)[-600:]
             viol('C10:iterfit:procedure:maxiter%s0' % ('=' if c['maxiter'] == 0 else '>'),
                  'returned curve/mask differ from the documented procedure (fit, reject beyond lower/upper sigma, refit until '
